@@ -118,7 +118,15 @@ fn apply(o: Obj, c: &Value, k: usize, salt: usize) -> Result<Obj, String> {
             }
             Obj::Raw(v)
         },
-        ("push", Obj::Int(mut v)) => { if salt % 2 == 0 { for _ in 0..k { v.push(val()); } } else { v.extend(std::iter::repeat(val()).take(k)); } Obj::Int(v) },
+        ("push", Obj::Int(mut v)) => {
+            match salt % 3 {
+                0 => for _ in 0..k { v.push(val()); },
+                1 => v.extend(std::iter::repeat(val()).take(k)),
+                // a short iterator whose size_hint has lower bound 0 and an enormous upper bound
+                _ => { let x = val(); v.extend((0..usize::MAX).take_while(|i| *i < k).map(|_| x)); },
+            }
+            Obj::Int(v)
+        },
         ("pop", Obj::Raw(mut v)) => {
             match salt % 3 {
                 0 => for _ in 0..k { v.pop_bit(); },
@@ -149,8 +157,11 @@ fn apply(o: Obj, c: &Value, k: usize, salt: usize) -> Result<Obj, String> {
             }
         },
         ("enable", Obj::Bv(mut b)) => { conv::enable(&mut b, c["s"].as_str().unwrap()); Obj::Bv(b) },
-        ("clone", Obj::Raw(v)) => Obj::Raw(v.clone()),
-        ("clone", Obj::Int(v)) => Obj::Int(v.clone()),
+        // clone(), or clone_from() into an existing object of another shape (longer / shorter, another width, other supports)
+        ("clone", Obj::Raw(v)) => Obj::Raw(match salt % 3 { 0 => v.clone(), 1 => { let mut t = RawVector::with_len(v.len() + 77, true); t.clone_from(&v); t }, _ => { let mut t = RawVector::new(); t.clone_from(&v); t } }),
+        ("clone", Obj::Int(v)) => Obj::Int(match salt % 3 { 0 => v.clone(), 1 => { let mut t = IntVector::with_len(5, 64, u64::MAX).unwrap(); t.clone_from(&v); t }, _ => { let mut t = IntVector::with_len(v.len() + 3, if v.width() == 13 { 7 } else { 13 }, 5).unwrap(); t.clone_from(&v); t } }),
+        ("clone", Obj::Bv(AnyBv::Plain(b))) => Obj::Bv(AnyBv::Plain(if salt % 2 == 0 { b.clone() } else {
+            let mut t = BitVector::from(RawVector::with_len(130, true)); t.enable_rank(); t.enable_select(); t.enable_select_zero(); t.clone_from(&b); t })),
         ("clone", Obj::Bv(b)) => Obj::Bv(clone_bv(&b)),
         ("reload", Obj::Raw(v)) => Obj::Raw(reload(&v)?),
         ("reload", Obj::Int(v)) => Obj::Int(reload(&v)?),
